@@ -188,7 +188,7 @@ func Run(t *testing.T) {
 
 func runInstances(u *vk.Unit, p *reg.Package, meta Meta, pkg string) {
 	comps := meta.Doc.Components
-	vd := specgen.Validator{C: comps}
+	vd := specgen.Validator{C: comps, Float64Numbers: true}
 	for _, cn := range comps.Names() {
 		if meta.OnlyType != "" && cn != meta.OnlyType {
 			continue
@@ -272,7 +272,7 @@ func runInstances(u *vk.Unit, p *reg.Package, meta Meta, pkg string) {
 
 func runValues(u *vk.Unit, p *reg.Package, meta Meta, pkg string) {
 	comps := meta.Doc.Components
-	vd := specgen.Validator{C: comps}
+	vd := specgen.Validator{C: comps, Float64Numbers: true}
 	// every exported named type with JSON methods
 	var names []string
 	for n, rt := range p.Types {
